@@ -30,6 +30,7 @@ pub fn long_dim(r: &mut Rng) -> usize {
         0 => r.range(100, 600),
         1 => *r.pick(&[63, 64, 65, 127, 128, 129, 255, 256, 257]),
         2 => *r.pick(&[5, 7, 11, 13, 17, 31, 61]),
+        3 if r.chance(1, 2) => r.range(1000, 2100),
         _ => r.range(9, 40),
     }
 }
